@@ -2,7 +2,7 @@
    Only property theorems live here: each is closed by [exact], pinned by
    [Check ... : statement] and followed by [Print Assumptions]. *)
 From Coq Require Import List NArith Permutation.
-From Echo Require Import Base.FinMap Base.Bytes Model.Root Proofs.RootProofs Proofs.RootProofs2.
+From Echo Require Import Base.FinMap Base.Bytes Model.Root Proofs.RootProofs Proofs.RootProofs2 Proofs.RootProofs3.
 Import ListNotations.
 Open Scope N_scope.
 
@@ -95,11 +95,30 @@ Check root_preimage_is_content_encoding : forall s r,
   root_preimage s r = enc_content (reach_content s r).
 Print Assumptions root_preimage_is_content_encoding.
 
-(* The columnar accumulator agrees with snapshot.rs on the state that separated them before the
-   F2 fix (SnapshotAccumulator::compute_state_root omitted domain::STATE_ROOT_V1). *)
+(* The second, columnar implementation (SnapshotAccumulator: from_warp_state, compute_reachability,
+   compute_state_root) feeds the hasher exactly the same bytes as snapshot.rs on every well-formed
+   state.  (Before the F2 fix, commit e41f993, this was false: the accumulator omitted
+   domain::STATE_ROOT_V1; f2_s / f2_root was the refutation witness, now an agreement example.) *)
+Theorem acc_agrees : forall s r,
+  wf_state s = true -> acc_root_preimage (from_state s) r = root_preimage s r.
+Proof. exact acc_agrees_w. Qed.
+Check acc_agrees : forall s r,
+  wf_state s = true -> acc_root_preimage (from_state s) r = root_preimage s r.
+Print Assumptions acc_agrees.
+
+(* ... and so does any accumulator whose tables represent the state (the form needed for
+   accumulators obtained by applying ops; that ops preserve [Rep] is checked by correspondence and
+   by the implementation oracle only: acc_refines_store is NOT proved). *)
+Theorem acc_agrees_any_representation_partial : forall s a r,
+  wf_state s = true -> Rep a s -> acc_root_preimage a r = root_preimage s r.
+Proof. exact (fun s a r W R => acc_agrees_rep s W a R r). Qed.
+Check acc_agrees_any_representation_partial : forall s a r,
+  wf_state s = true -> Rep a s -> acc_root_preimage a r = root_preimage s r.
+Print Assumptions acc_agrees_any_representation_partial.
+
 Example acc_agrees_on_former_f2_witness :
-  acc_root_preimage (from_state f2_s) f2_root = root_preimage f2_s f2_root.
-Proof. exact f2_witness_agrees. Qed.
+  wf_state f2_s = true /\ acc_root_preimage (from_state f2_s) f2_root = root_preimage f2_s f2_root.
+Proof. split; [vm_compute; reflexivity|exact f2_witness_agrees]. Qed.
 
 (* Non-vacuity. ex_s1 / ex_s2: two instances linked by a portal on an edge slot; ex_s2 is built in
    another order and carries an unreachable node with an edge into the reachable part, orphan
